@@ -154,3 +154,103 @@ class LagMode(vlib.Mode):
 
     def describe(self, case):
         return [l if not l.startswith("session") else "session <token> " + vlib.unhx(l.split(" ")[2]).decode() for l in case]
+
+
+STUBBORN_RULE = (" mode stubborn (oracle only, real sockets): a write-capable connection that has stopped reading (so it never answers a close frame) "
+                 "and a well-behaved connection share a booking; the booking is denied (or the tokens expire); the stubborn connection goes on sending. "
+                 "Judged: nothing sent after the acknowledgement reaches the listener of another booking on the same topic, and neither connection is "
+                 "still joined afterwards.")
+
+
+class StubbornMode(vlib.Mode):
+    """cancellation / expiry must not depend on the peer's cooperation"""
+    name = "stubborn"
+    impl_mode = "relay"
+    compare = False
+    shrinkable = False
+    chunk = 4
+
+    def __init__(self, focus):
+        super().__init__()
+        self.focus = focus
+
+    def timeout(self, tier):
+        return 900
+
+    def generate(self, rng, tier):
+        n = 4 if tier == "quick" else 40
+        return [self.gen_case(rng) for _ in range(n)]
+
+    def gen_case(self, rng):
+        now = 1000000 + rng.randrange(5000)
+        topic = rng.choice(["t1", "t2", "lab"])
+        case = [f"config 0 {rng.choice([16, 64])}", f"now {now}"]
+        k = [0]
+        def join(bid, scopes):
+            case.append(f"session {tok(now, topic=sval(topic), bid=sval(bid), scopes=lval(scopes))} {hx(topic)}")
+            case.append(f"ws {hx('/session/' + topic)} c{k[0]}")
+            k[0] += 1
+            return k[0] - 1
+        lis = join("bL", ["read"])
+        stub = join("bS", rng.choice([["write"], ["read", "write"]]))
+        pol = join("bS", ["read", "write"])
+        if rng.random() < 0.5: case.append(f"muteclose n{stub}")
+        case.append(f"stall n{stub}")
+        size = rng.choice([64, 1024, 8192])
+        case.append(f"flood n{stub} 5 {size} 1")
+        case.append("drain 200")
+        admin = tok(now, scopes=lval(["relay:admin"]), topic=sval("a"), prefix=sval("a"), bid=sval("a"))
+        case.append(f"deny {admin} s{hx('bS')} s{hx(str(now + 600))}")
+        case.append("drain 300")               # marks the point after which nothing of the denied booking may travel
+        for _ in range(rng.choice([1, 3])):
+            case.append(f"flood n{stub} 10 {size} 9")
+            case.append("settle 150")
+        case.append(f"flood n{pol} 3 {size} 8")
+        case.append("drain 400")
+        case.append("members")
+        return case
+
+    def oracle(self, case, out):
+        fails = []
+        after = False
+        stub = pol = None
+        idx = 0
+        for l in case:
+            if l.startswith("ws "):
+                if idx == 1: stub = 1
+                if idx == 2: pol = 2
+                idx += 1
+        for l, o in zip(case, out):
+            f = l.split(" ")
+            if o.startswith("<<") or o in ("stuck", "dead") or o.startswith("panic"):
+                return [("relay-crash-or-hang", f"{l} -> {o}")]
+            if f[0] == "ws" and not o.startswith("joined"):
+                return []
+            if f[0] == "deny":
+                if not o.startswith("204"):
+                    return []
+                after = True
+                continue
+            if f[0] == "drain" and after and o.startswith("drain"):
+                for ent in o.split(" ")[1:]:
+                    m = re.match(r"n(\d+)=([a-z/]+):([0-9:,\-]*):bad(\d+)$", ent)
+                    if not m:
+                        continue
+                    for run in [r for r in m.group(3).split(",") if r]:
+                        t = int(run.split(":")[0])
+                        if t in (8, 9):
+                            fails.append(("denied-connection-still-relays", f"n{m.group(1)} received records {run} sent by a connection of the denied booking AFTER the deny was "
+                                          f"acknowledged (the sender had stopped reading, so it never answers a close frame)"))
+            if f[0] == "members" and after and o.startswith("members="):
+                ms = o.split(" ")[0][len("members="):]
+                joined = {e.split(":")[0] for e in ms.split(",") if e}
+                for n, what in ((f"n{stub}", "the connection that does not read"), (f"n{pol}", "the well-behaved connection")):
+                    if n in joined:
+                        fails.append(("denied-connection-still-joined", f"{what} ({n}) of the denied booking is still joined after the deny"))
+        return fails[:3]
+
+    def nontrivial(self, case, out):
+        return any(l.startswith("deny") and o.startswith("204") for l, o in zip(case, out))
+
+    def describe(self, case):
+        return [l if not (l.startswith("session") or l.startswith("deny")) else l.split(" ")[0] + " <token> …" for l in case]
